@@ -175,7 +175,11 @@ def compositePrep (c : Cfg) (parent : J) (resp : CompResp) : PE (J × ObjMap) :=
     if resp.finalized then do
       let r ← PE.lift (atomicUpdate (c.parentTarget parent) parent (removeFinalizerEdit c.finalizer.name))
       match r with
-      | .ok p => pure p
+      | .ok p =>
+          -- the refreshed object keeps the generation the hooks were sent (`SetGeneration`; 0 removes the field)
+          let g := getGeneration parent
+          pure (if g == 0 then removeNestedField p ["metadata", "generation"]
+                else match setNestedField p (.num g) ["metadata", "generation"] with | .ok p' => p' | .error _ => p)
       | .error e => PE.fail s!"can't remove finalizer: {e}"
     else pure parent
   let selector ← PE.ofExcept (c.makeSelector parent)
